@@ -12,7 +12,11 @@
    save-point error (breaks gorm's SavePointerDialectorInterface contract; never set when
    c_report C = true).  c_nosp C = false: the dialector implements save points (with one that does
    not, SavePoint / RollbackTo answer ErrUnsupportedDriver: modelled, tied by the correspondence,
-   outside these theorems).  The model follows /repo after fix 1c49b86 (the nested branch calls
+   outside these theorems).  no_cancel p: no block cancels its own context (with Cancel the model
+   predicts gorm's behaviour, which violates the property: see the _refuted theorem).  c_soft C =
+   false: the pool's transaction wrapper does not fail Commit by itself (with it the transaction
+   stays open until the Rollback that follows; c04_every_tx_ended / c04_released cover that case
+   too).  The model follows /repo after fix 1c49b86 (the nested branch calls
    SavePoint / RollbackTo on db.Session(&Session{}), so their errors no longer stick to the
    enclosing handle); before it the result/usability theorem needed an extra hypothesis. *)
 From Verif Require Import Base C04_Model C04_Check C04_Proofs C04_Proofs2 C04_Proofs3 C04_Proofs4 C04_Proofs5 C04_Proofs6.
@@ -26,10 +30,10 @@ Open Scope Z_scope.
 Theorem c04_atomic : forall E,
   (forall n t, sq_save E n t = ref_save n t) ->
   (forall n t, sq_rbto E n t = ref_rbto n t) ->
-  forall C, c_nosp C = false ->
+  forall C, c_nosp C = false -> c_soft C = false ->
   forall fault manual p extra db0 o x s,
   run_top E C fault manual p extra (init_st db0) = (o, x, s) ->
-  scoped [] p = true -> x_rb (s_fl s) = false -> x_drop (s_fl s) = false ->
+  scoped [] p = true -> no_cancel p = true -> x_rb (s_fl s) = false -> x_drop (s_fl s) = false ->
   s_db s = spec_final (negb (c_nonest C)) o (rev (s_ops s)) db0.
 Proof. exact top_atomic. Qed.
 Print Assumptions c04_atomic.
@@ -42,11 +46,11 @@ Print Assumptions c04_atomic.
 Theorem c04_result_usable : forall E,
   (forall n t, sq_save E n t = ref_save n t) ->
   (forall n t, sq_rbto E n t = ref_rbto n t) ->
-  forall C, c_nosp C = false ->
+  forall C, c_nosp C = false -> c_soft C = false ->
   forall fault manual p extra db0 o x s,
   run_top E C fault manual p extra (init_st db0) = (o, x, s) ->
-  scoped [] p = true -> x_rb (s_fl s) = false -> x_drop (s_fl s) = false ->
-  top_ok o (rev (s_ops s)) = true /\ usable o (rev (s_ops s)) = true.
+  scoped [] p = true -> no_cancel p = true -> x_rb (s_fl s) = false -> x_drop (s_fl s) = false ->
+  top_ok o (rev (s_ops s)) = true /\ usable o (rev (s_ops s)) = true /\ extras_ok extra x = true.
 Proof. exact top_result. Qed.
 Print Assumptions c04_result_usable.
 
@@ -75,10 +79,10 @@ Theorem c04_spec_holds : forall E,
   (forall n t, sq_save E n t = ref_save n t) ->
   (forall n t, sq_rbto E n t = ref_rbto n t) ->
   (forall l, bal false l = true -> pool E l = (0, 0)) ->
-  forall C, c_nosp C = false ->
+  forall C, c_nosp C = false -> c_soft C = false ->
   forall fault manual p extra o x s,
   run_top E C fault manual p extra (init_st []) = (o, x, s) ->
-  scoped [] p = true ->
+  scoped [] p = true -> no_cancel p = true ->
   x_rb (s_fl s) = false -> x_drop (s_fl s) = false ->
   spec_holds (mk_case manual p extra [] C None o x [] (s_db s)
                 (fst (pool E (rev (s_txlog s)))) (snd (pool E (rev (s_txlog s)))) (rev (s_ops s))) = true.
@@ -101,15 +105,26 @@ Theorem c04_nested_isolated : forall E,
   (forall n t, sq_save E n t = ref_save n t) ->
   (forall n t, sq_rbto E n t = ref_rbto n t) ->
   forall C, c_nosp C = false ->
-  forall fault b h s r o h1 s1 t stk,
-  c_nonest C = false -> scoped [] b = true ->
-  nested E C fault (run_body E C fault b) h s = (r, o, h1, s1) ->
+  forall fault cx b h s r o h1 s1 t stk,
+  c_nonest C = false -> scoped [] b = true -> no_cancel b = true ->
+  nested E C fault cx (run_body E C fault b) h s = (r, o, h1, s1) -> s_dead s = false ->
   s_tx s = Some (mkTx t stk) -> gen_ok (s_gen s) stk ->
   x_rb (s_fl s1) = false -> x_drop (s_fl s1) = false ->
   h1 = h /\
   (is_ok r = false -> exists stk', s_tx s1 = Some (mkTx t stk') /\ fu stk' = fu stk).
 Proof. exact nested_isolated. Qed.
 Print Assumptions c04_nested_isolated.
+
+(* ... but when the nested block's own context (tx.WithContext(ctx).Transaction) is cancelled inside
+   it, the failing block is NOT undone: the model follows gorm, and gorm violates the property
+   (known finding nested-rollback-under-cancelled-context, corpus/C04) *)
+Theorem c04_nested_undo_refuted_cancelled_context :
+  scoped [] cancel_prog = true /\ no_cancel cancel_prog = false /\
+  let '(o, x, s) := run_top ref_env cfg_default (fault_at None) false cancel_prog [] (init_st []) in
+  x_rb (s_fl s) = false /\ x_drop (s_fl s) = false /\
+  s_db s = [1; 2; 3] /\ spec_final true o (rev (s_ops s)) [] = [1; 3].
+Proof. exact cancel_witness. Qed.
+Print Assumptions c04_nested_undo_refuted_cancelled_context.
 
 (* SAVEPOINT EXACTNESS: RollbackTo n restores the snapshot of the most recent SavePoint n,
    keeps that save point and drops the later ones *)
